@@ -3,7 +3,7 @@
    [bcast] the join, [bcast_impl] the name / save / recode / join / decode / restore sequence of the implementation.
    Only statements, `exact`, Print Assumptions. *)
 From Coq Require Import ZArith List Bool.
-From PL Require Import Core.Broadcast Core.BroadcastThm Core.BroadcastImpl Core.BroadcastRecode.
+From PL Require Import Core.Broadcast Core.BroadcastThm Core.BroadcastImpl Core.BroadcastRecode Core.BroadcastOpts.
 Import ListNotations.
 Open Scope Z_scope.
 
@@ -136,6 +136,43 @@ Theorem paramset_on_parameter_levels (V : Type) (w : V) (s : state V) :
   r_levels (broadcast_top KSeries w s) = ulv (st_prm s).
 Proof. exact (BroadcastImpl.paramset_on_parameter_levels V w s). Qed.
 
+(* index kinds: a single level may be held by an Index, a one-level MultiIndex or a RangeIndex (the default index); the
+   re-coding looks the VALUES up whatever holds them (row i of a RangeIndex: the position of start + step*i in the level
+   table); coding a RangeIndex by position is right only if the table lists the range's values first and in its order,
+   which fails as soon as the object lists the keys of a shared level in another order (witness) *)
+Theorem range_coded_by_value (V : Type) tbl n a s (vals : list V) :
+  map fst (rows (fmap (encode tbl) (Frame [n] (combine (range_keys a s (length vals)) vals))))
+  = map (fun i => [encode tbl n (a + s * Z.of_nat i)]) (seq 0 (length vals)).
+Proof. exact (BroadcastOpts.range_coded_by_value V tbl n a s vals). Qed.
+Theorem positional_code_only_if tbl n a s m :
+  (forall i, (i < m)%nat -> In (a + s * Z.of_nat i) (tbl n)) ->
+  (forall i, (i < m)%nat -> encode tbl n (a + s * Z.of_nat i) = Z.of_nat i) ->
+  forall i, (i < m)%nat -> nth i (tbl n) 0 = a + s * Z.of_nat i.
+Proof. exact (BroadcastOpts.positional_code_only_if tbl n a s m). Qed.
+Theorem range_positional_refuted :
+  exists s : state Z,
+    index_ok (IRange 0 1) (ulv (st_prm s)) (map fst (urows (st_prm s))) = true /\
+    ulv (st_obj s) = ulv (st_prm s) /\
+    map fst (rows (snd (r_coded (bcast_impl s)))) = [[1]; [3]; [0]; [2]] /\
+    map fst (rows (snd (r_coded (bcast_impl s)))) <> map fst (urows (st_prm s)) /\
+    r_result (bcast_impl s) = Rows [([2], Some 0, Some 2); ([0], Some 1, Some 0); ([3], Some 2, Some 3); ([1], Some 3, Some 1)].
+Proof. exact BroadcastOpts.range_positional_refuted. Qed.
+
+(* the droplevel option: the returned parameter = the aligned rows grouped by the result levels without the dropped ones:
+   exactly the keys of the aligned rows without the dropped components, each once (rows are told apart by KEY, equal
+   values do not merge rows), each carrying what the original parameter held for that key restricted to its own levels *)
+Theorem drop_prm_keys (V : Type) D tot (R : list (arow V)) g :
+  In g (map fst (drop_prm D tot R)) <-> exists t, In t R /\ proj tot (akey t) (keepl D tot) = g.
+Proof. exact (BroadcastOpts.drop_prm_keys V D tot R g). Qed.
+Theorem drop_prm_one_row_per_key (V : Type) D tot (R : list (arow V)) : NoDup (map fst (drop_prm D tot R)).
+Proof. exact (BroadcastOpts.drop_prm_one_row_per_key V D tot R). Qed.
+Theorem drop_prm_carries (V : Type) (o p : frame V) R D g v :
+  wf V o -> wf V p -> bcast o p = Rows R ->
+  (forall n, In n D -> ~ In n (lv p)) ->
+  In (g, v) (drop_prm D (total (lv o) (lv p)) R) ->
+  v = lookup (proj (keepl D (total (lv o) (lv p))) g (lv p)) (rows p).
+Proof. exact (BroadcastOpts.drop_prm_carries V o p R D g v). Qed.
+
 Print Assumptions same_index.
 Print Assumptions rows_carry_restricted_value.
 Print Assumptions no_object_row_lost.
@@ -158,3 +195,9 @@ Print Assumptions paramset_iff.
 Print Assumptions row_indexed_joined_as_is.
 Print Assumptions object_levels_survive.
 Print Assumptions paramset_on_parameter_levels.
+Print Assumptions range_coded_by_value.
+Print Assumptions positional_code_only_if.
+Print Assumptions range_positional_refuted.
+Print Assumptions drop_prm_keys.
+Print Assumptions drop_prm_one_row_per_key.
+Print Assumptions drop_prm_carries.
